@@ -205,15 +205,53 @@ theorem updateChol_branch [DecidableEq α] (cplx : Bool) (chol : Mat n n α → 
 
 /-! ## SolverSparseLU (pass-through) -/
 
-/-- contract of `splu(A).solve(·, trans)`; the authored part maps the three mode strings identically and rejects others -/
+/-- contract of `splu(A).solve(·, trans)`; authored: the three mode strings are passed on unchanged (others rejected)
+    and, for a real factorisation with a complex rhs `B = reB + I·imB`, real and imaginary part are solved separately -/
 theorem solveSparseLU_correct (splu : Trans → Mat n k α → Mat n k α) (A : Mat n n α)
-    (h : ∀ t B, opT t A * splu t B = B) (B : Mat n k α) :
-    (∃ X, solveSparseLU splu "N" B = .ok X ∧ A * X = B) ∧
-    (∃ X, solveSparseLU splu "T" B = .ok X ∧ Aᵀ * X = B) ∧
-    (∃ X, solveSparseLU splu "H" B = .ok X ∧ Aᴴ * X = B) := by
-  refine ⟨⟨splu .N B, by simp [solveSparseLU, sparseTransMap], h .N B⟩,
-    ⟨splu .T B, by simp [solveSparseLU, sparseTransMap], h .T B⟩,
-    ⟨splu .H B, by simp [solveSparseLU, sparseTransMap], h .H B⟩⟩
+    (h : ∀ t B, opT t A * splu t B = B) (iscomplexA rhsComplex : Bool) (reB imB : Mat n k α) (I : α)
+    (B : Mat n k α) (hsplit : B = fun i j => reB i j + I * imB i j) :
+    (∃ X, solveSparseLU splu iscomplexA rhsComplex reB imB I "N" B = .ok X ∧ A * X = B) ∧
+    (∃ X, solveSparseLU splu iscomplexA rhsComplex reB imB I "T" B = .ok X ∧ Aᵀ * X = B) ∧
+    (∃ X, solveSparseLU splu iscomplexA rhsComplex reB imB I "H" B = .ok X ∧ Aᴴ * X = B) := by
+  have key : ∀ t : Trans, opT t A * Matrix.of (fun i j => splu t reB i j + I * splu t imB i j) = B := by
+    intro t
+    have h1 : Matrix.of (fun i j => splu t reB i j + I * splu t imB i j) = splu t reB + I • splu t imB := by
+      ext i j; simp
+    rw [h1, Matrix.mul_add, Matrix.mul_smul, h, h, hsplit]
+    ext i j; simp
+  have main : ∀ (ts : String) (t : Trans), sparseTransMap ts = .ok t →
+      ∃ X, solveSparseLU splu iscomplexA rhsComplex reB imB I ts B = .ok X ∧ opT t A * X = B := by
+    intro ts t hts
+    by_cases hc : (!iscomplexA && rhsComplex) = true
+    · exact ⟨_, by simp only [solveSparseLU, hts, hc, if_true, withMemo_eq]; rfl, key t⟩
+    · exact ⟨_, by simp only [solveSparseLU, hts, hc]; rfl, h t B⟩
+  exact ⟨main "N" .N (by simp [sparseTransMap]), main "T" .T (by simp [sparseTransMap]),
+    main "H" .H (by simp [sparseTransMap])⟩
+
+/-! ## re-use of one solver object (`update` called again): the new factor state forgets the old matrix -/
+
+/-- `update_forgets` for `SolverDenseCholesky`: what `solve` returns after `update(A)` depends on `A` only — not on the
+    matrices of earlier updates — except through the `hermitian` flag cached by the back-up LDL solver (which the code
+    keeps from the back-up's first update).  In particular a successful factorisation after an earlier fall-back
+    switches back to the Cholesky factor. -/
+theorem updateChol_forgets [DecidableEq α] (tri : TriSolve α n k) (cplx : Bool) (chol : Mat n n α → Option (Mat n n α))
+    (ldl : Bool → Mat n n α → Mat n n α × Mat n n α × (Fin n → Fin n)) (inv : Mat n n α → Mat n n α)
+    (prev₁ prev₂ : Option (CholState α n)) (A : Mat n n α)
+    (hflag : ((prev₁.bind (·.backup)).map (·.hermitian)) = ((prev₂.bind (·.backup)).map (·.hermitian)))
+    (t : Trans) (B : Mat n k α) :
+    solveChol tri (updateChol cplx chol ldl inv prev₁ A) t B = solveChol tri (updateChol cplx chol ldl inv prev₂ A) t B := by
+  unfold updateChol
+  cases hc : chol A with
+  | some U => simp [solveChol]
+  | none => simp only [solveChol, hflag]
+
+/-- and a successful update always selects the Cholesky branch with the NEW factor, whatever happened before -/
+theorem updateChol_success_resets [DecidableEq α] (tri : TriSolve α n k) (cplx : Bool)
+    (chol : Mat n n α → Option (Mat n n α))
+    (ldl : Bool → Mat n n α → Mat n n α × Mat n n α × (Fin n → Fin n)) (inv : Mat n n α → Mat n n α)
+    (prev : Option (CholState α n)) (A U : Mat n n α) (hU : chol A = some U) (t : Trans) (B : Mat n k α) :
+    solveChol tri (updateChol cplx chol ldl inv prev A) t B = .ok (solveCholOk tri U t B) := by
+  simp [updateChol, hU, solveChol]
 
 /-! ## vector right-hand sides and shape -/
 
@@ -234,7 +272,7 @@ theorem solve_shape (tri : TriSolve α n k) (q r p l u U : Mat n n α) (d : Fin 
 
 /-! ## block CG (`CG.solve`) -/
 section cg
-variable {ρ : Type*} [LinearOrder ρ] [Div ρ] [DecidableEq α]
+variable {ρ : Type*} [LinearOrder ρ] [Div ρ] [Zero ρ] [One ρ] [DecidableEq α]
 
 /-- one pass of the loop body keeps `r = b − A x`, whatever the preconditioner, `inv`, `sqrt`, the zero test of
     `orth` (i.e. whatever rank pattern of the block), the restart period and the iteration number -/
@@ -329,8 +367,6 @@ theorem cg_invariant (c : CGConfig α ρ n k) (b : Mat n k α) (x0 : Option (Mat
   simp only [withMemo_eq] at h
   split at h
   · simp at h
-  split at h
-  · simp at h
   cases x0
   all_goals
     dsimp only at h
@@ -347,7 +383,7 @@ theorem cg_invariant (c : CGConfig α ρ n k) (b : Mat n k α) (x0 : Option (Mat
     `‖b_j − (A x)_j‖ / ‖b_j‖ ≤ tol` for the TRUE residual -/
 theorem cg_exit_residual (c : CGConfig α ρ n k) (b : Mat n k α) (x0 : Option (Mat n k α)) (res : CGResult α n k)
     (h : cgSolve c b x0 = .ok res) (hconv : res.converged = true) (j : Fin k) :
-    c.norm (fun i => (b - c.A * res.x) i j) / c.norm (fun i => b i j) ≤ c.tol := by
+    c.norm (fun i => (b - c.A * res.x) i j) / bnorm c b j ≤ c.tol := by
   obtain ⟨hr, hc⟩ := cg_invariant c b x0 res h
   have := hc hconv
   simp only [converged, List.all_eq_true, List.mem_finRange, decide_eq_true_eq, forall_const] at this
@@ -357,16 +393,24 @@ theorem cg_exit_residual (c : CGConfig α ρ n k) (b : Mat n k α) (x0 : Option 
 end cg
 
 /-- partial correctness of CG over an ordered field of norms: an exit through the tolerance test returns `x` with
-    `‖b_j − A x_j‖ ≤ tol ‖b_j‖` column-wise.  NOT proved (hence `_partial`): that the exit is taken within `maxit`
-    iterations for every Hermitian positive definite `A` (convergence of CG), and hence that `solve` always
-    returns a solution. -/
+    `‖b_j − A x_j‖ ≤ tol ‖b_j‖` for every non-zero column `b_j`, and `‖A x_j‖ ≤ tol` (absolute) for a zero column.
+    NOT proved (hence `_partial`): that the exit is taken within `maxit` iterations for every Hermitian positive
+    definite `A` (convergence of CG), and hence that `solve` always returns a solution. -/
 theorem cg_correct_partial {ρ : Type*} [Field ρ] [LinearOrder ρ] [IsStrictOrderedRing ρ] [DecidableEq α]
     (c : CGConfig α ρ n k) (b : Mat n k α) (x0 : Option (Mat n k α)) (res : CGResult α n k)
-    (h : cgSolve c b x0 = .ok res) (hconv : res.converged = true) (j : Fin k)
-    (hb : 0 < c.norm (fun i => b i j)) :
-    c.norm (fun i => (b - c.A * res.x) i j) ≤ c.tol * c.norm (fun i => b i j) := by
+    (h : cgSolve c b x0 = .ok res) (hconv : res.converged = true) (j : Fin k) :
+    (0 < c.norm (fun i => b i j) →
+      c.norm (fun i => (b - c.A * res.x) i j) ≤ c.tol * c.norm (fun i => b i j)) ∧
+    (c.norm (fun i => b i j) = 0 → c.norm (fun i => (b - c.A * res.x) i j) ≤ c.tol) := by
   have := cg_exit_residual c b x0 res h hconv j
-  rwa [div_le_iff₀ hb] at this
+  constructor
+  · intro hb
+    have hne : c.norm (fun i => b i j) ≠ 0 := ne_of_gt hb
+    rw [bnorm, if_neg hne, div_le_iff₀ hb] at this
+    exact this
+  · intro hb
+    rw [bnorm, if_pos hb, div_one] at this
+    exact this
 
 /-! ## auto_determine_solver -/
 
@@ -480,6 +524,13 @@ example (t : Trans) (B : Mat 2 2 ℚ) : opT t !![2, 0; 0, 3] * solveLDL triId ld
       d1_right := by
         ext i j; fin_cases i <;> fin_cases j <;> simp [ldlEx', Matrix.mul_apply, Fin.sum_univ_two],
       factor := by simp [ldlEx'], tri_ok := triId_ok _ _ } t B
+/-- re-use: a fresh object and an object that already holds a Cholesky factor of another matrix answer alike after
+    `update(A)` (hypothesis `hflag` holds: neither has a cached LDL flag) -/
+example (chol : Mat 2 2 ℚ → Option (Mat 2 2 ℚ)) (ldl : Bool → Mat 2 2 ℚ → Mat 2 2 ℚ × Mat 2 2 ℚ × (Fin 2 → Fin 2))
+    (A : Mat 2 2 ℚ) (t : Trans) (B : Mat 2 2 ℚ) :
+    solveChol triId (updateChol false chol ldl id none A) t B
+      = solveChol triId (updateChol false chol ldl id (some { success := true, U := swap2, backup := none }) A) t B :=
+  updateChol_forgets triId false chol ldl id none _ A rfl t B
 end nonvacuous
 
 end PymotoVerif.Props.C05
